@@ -190,7 +190,16 @@ class Elements:
         if isinstance(e, ast.Name):
             out = []
             for o in origins(ctx.cfg, e, at):
-                if o.kind == "expr" and not o.path:
+                if o.kind == "expr" and not o.path and isinstance(o.expr, ast.List) and not o.expr.elts and self._fills(ctx, e.id):
+                    # ``xs = []`` filled by ``for x in S: .. xs.append(x)`` / ``xs.extend(S)``: the elements of S
+                    for kind, val, st in self._fills(ctx, e.id):
+                        if kind == "all":
+                            out += self.of(val, st, depth + 1, ctx)
+                        else:
+                            out += self._element_sources(ctx, val, st, depth + 1)
+                elif o.kind == "aug" and not o.path and isinstance(o.expr, ast.AST):
+                    out += self.of(o.expr, o.stmt, depth + 1, ctx)  # ``xs += S``
+                elif o.kind == "expr" and not o.path:
                     out += self.of(o.expr, o.stmt, depth + 1, ctx)
                 elif o.kind == "param" and ctx.parent is not None and not o.path and o.expr.arg in (ctx.argmap or {}):
                     out += self.of(ctx.argmap[o.expr.arg], ctx.at, depth + 1, ctx.parent)
@@ -226,6 +235,36 @@ class Elements:
             return self.of(e.value, at, depth + 1, ctx)
         return [(e, at, ctx)]
 
+    def _fills(self, ctx: Ctx, name: str):
+        """In-place additions to the list local ``name``: ('one', value, stmt) for append/insert,
+        ('all', iterable, stmt) for extend."""
+        out = []
+        for sh in mutation_shapes(ctx.cfg.func):
+            if isinstance(sh.recv, ast.Name) and sh.recv.id == name and isinstance(sh.node, ast.Call) and sh.node.args:
+                if sh.method in ("append", "insert", "add"):
+                    out.append(("one", sh.node.args[-1], ctx.cfg.stmt_of(sh.node)))
+                elif sh.method in ("extend", "update"):
+                    out.append(("all", sh.node.args[0], ctx.cfg.stmt_of(sh.node)))
+        return out
+
+    def _element_sources(self, ctx: Ctx, recv: ast.AST, at, depth: int = 0) -> List[Tuple[ast.AST, object, Ctx]]:
+        """Base iterables the single object ``recv`` is an element of (in context ``ctx``)."""
+        if isinstance(recv, ast.Subscript) and not isinstance(recv.slice, ast.Slice):
+            return self.of(recv.value, at, depth, ctx)
+        if isinstance(recv, ast.Name):
+            out = []
+            for o in origins(ctx.cfg, recv, at):
+                if o.kind == "for" and not o.path:
+                    out += self.of(o.expr, o.stmt, depth, ctx)
+                elif o.kind == "for" and tuple(o.path) == (1,) and isinstance(o.expr, ast.Call) and fq(o.expr) == "enumerate" and o.expr.args:
+                    out += self.of(o.expr.args[0], o.stmt, depth, ctx)  # ``for i, x in enumerate(S)``
+                elif o.kind == "expr" and isinstance(o.expr, ast.Subscript) and not isinstance(o.expr.slice, ast.Slice) and not o.path:
+                    out += self.of(o.expr.value, o.stmt, depth, ctx)
+                else:
+                    out.append((o.expr if isinstance(o.expr, ast.AST) else recv, o.stmt, ctx))
+            return out or [(recv, at, ctx)]
+        return [(recv, at, ctx)]
+
     def element_receiver(self, recv: ast.AST, at) -> List[Tuple[ast.AST, object, Ctx]]:
         """Base iterables the object ``recv`` is an element of."""
         ctx = self.root
@@ -236,6 +275,8 @@ class Elements:
             for o in origins(ctx.cfg, recv, at):
                 if o.kind == "for" and not o.path:
                     out += self.of(o.expr, o.stmt)
+                elif o.kind == "for" and tuple(o.path) == (1,) and isinstance(o.expr, ast.Call) and fq(o.expr) == "enumerate" and o.expr.args:
+                    out += self.of(o.expr.args[0], o.stmt)  # ``for i, x in enumerate(S)``
                 elif o.kind == "expr" and isinstance(o.expr, ast.Subscript) and not isinstance(o.expr.slice, ast.Slice) and not o.path:
                     out += self.of(o.expr.value, o.stmt)
                 else:
@@ -324,6 +365,10 @@ def _r21ab(chk) -> None:
                 else:
                     problems.append((o.expr if isinstance(o.expr, ast.AST) else e, f"{o.kind} {short(o.expr, 40) if isinstance(o.expr, ast.AST) else o.expr}"))
             return
+        if isinstance(e, ast.Subscript) and isinstance(e.slice, ast.Constant) and isinstance(e.slice.value, int) and not isinstance(e.slice.value, bool) and e.slice.value >= 0:
+            # ``crawled[0]`` of a result kept whole: the same as unpacking it
+            accept_value(e.value, at, (e.slice.value,) + tuple(path), depth + 1)
+            return
         n_sources[0] += 1
         if isinstance(e, (ast.List, ast.Tuple)) and not e.elts and not path:
             return
@@ -334,9 +379,10 @@ def _r21ab(chk) -> None:
                 return  # reported above as a foreign crawl
             if last_attr(e) == "from_tree" and path == (1,) and isinstance(e.func, ast.Attribute) and _resolves_to(repo, m, norm(e.func.value), NOQA, "IgnoreMask"):
                 return
-            if not path and isinstance(e.func, ast.Attribute) and isinstance(e.func.value, ast.Name) and e.func.value.id in ("cls", "self") and e.args:
-                # a filter of the list itself: every argument must be accepted too
-                for a in e.args:
+            if not path and isinstance(e.func, ast.Attribute) and isinstance(e.func.value, ast.Name) and e.func.value.id in ("cls", "self") and (e.args or e.keywords) \
+                    and not any(isinstance(a, ast.Starred) for a in e.args) and all(k.arg is not None for k in e.keywords):
+                # a filter of the list itself: every argument (positional or keyword) must be accepted too
+                for a in list(e.args) + [k.value for k in e.keywords]:
                     accept_value(a, at, (), depth + 1)
                 return
         if isinstance(e, ast.BinOp) and isinstance(e.op, ast.Add) and not path:
@@ -764,8 +810,8 @@ def _r21d(chk) -> None:
             chk.fail("R21d", call, "cannot follow the list of instantiated rules", detail="pack.rules is a local list")
             continue
         # every element appended to the rules list
-        adds = [sh for sh in mutation_shapes(f) if isinstance(sh.recv, ast.Name) and sh.recv.id == rules.id and sh.method in ("append", "extend", "insert", "add")]
-        base_ok = all(isinstance(o.expr, (ast.List,)) and not o.expr.elts for o in origins(cfg, rules, st) if o.kind == "expr") and all(o.kind in ("expr",) for o in origins(cfg, rules, st))
+        adds = [sh for sh in mutation_shapes(f) if isinstance(sh.recv, ast.Name) and sh.recv.id == rules.id and (sh.method in ("append", "extend", "insert", "add") or sh.how == "augassign")]
+        base_ok = all(isinstance(o.expr, (ast.List,)) and not o.expr.elts for o in origins(cfg, rules, st) if o.kind == "expr") and all(o.kind in ("expr", "aug") for o in origins(cfg, rules, st))
         chk.require(base_ok and bool(adds), "R21d", call, "the rule list of the pack is not built up from an empty list by appends in get_rulepack", detail="rules list built by appends")
         chk.count("R21d.rule_appends", len(adds))
         for sh in adds:
@@ -850,8 +896,13 @@ def _loop_filter(cfg, f, name: ast.Name, at):
 
 def _check_instantiation(chk, repo, f, cfg, sh, cfgparam, is_refmap, exp) -> None:
     call = sh.node
-    st = cfg.stmt_of(call)
-    val = call.args[-1] if call.args else None
+    st = cfg.stmt_of(call) if isinstance(call, ast.Call) else call
+    if isinstance(call, ast.Call):
+        val = call.args[-1] if call.args else None
+    else:
+        # ``rules += [<rule>]``: the single element of the added list display
+        v = getattr(call, "value", None)
+        val = v.elts[0] if isinstance(v, (ast.List, ast.Tuple)) and len(v.elts) == 1 and not isinstance(v.elts[0], ast.Starred) and isinstance(getattr(call, "op", None), ast.Add) else None
     construct_of(call)
     # the appended value: <rule_class>(**kwargs) with rule_class = self._register[<code>].rule_class
     inst = None
@@ -865,9 +916,12 @@ def _check_instantiation(chk, repo, f, cfg, sh, cfgparam, is_refmap, exp) -> Non
     code_vars = set()
     ok_cls = False
     for x, xst in _single_origin_exprs(cfg, icall.func, ist):
-        if isinstance(x, ast.Attribute) and x.attr == "rule_class" and isinstance(x.value, ast.Subscript) and norm(x.value.value) == "self._register" and isinstance(x.value.slice, ast.Name):
-            ok_cls = True
-            code_vars.add(x.value.slice.id)
+        if isinstance(x, ast.Attribute) and x.attr == "rule_class":
+            # the register entry, directly or kept in a local (``manifest = self._register[code]``)
+            entries = _single_origin_exprs(cfg, x.value, xst) if isinstance(x.value, ast.Name) else [(x.value, xst)]
+            if entries and all(isinstance(y, ast.Subscript) and norm(y.value) == "self._register" and isinstance(y.slice, ast.Name) for y, _ in entries):
+                ok_cls = True
+                code_vars |= {y.slice.id for y, _ in entries}
     chk.require(ok_cls and len(code_vars) == 1, "R21d", icall, "a rule object is not instantiated from the register entry of the selected code (self._register[code].rule_class)", detail="rule class comes from the register entry of the code")
     if len(code_vars) != 1:
         return
@@ -906,6 +960,34 @@ def _check_selection(chk, repo, f, cfg, iter_expr, at, cfgparam, is_refmap, exp)
         chk.fail("R21d", iter_expr, "the selected codes are not produced by a membership filter `[c for c in <all codes> if c in <allowed> and c not in <denied>]`", detail="selection is a membership filter")
         return
     comp, cst, tests, universe = filt
+    # a filter applied in stages (``ks = [r for r in ks if r in A]; ks = [r for r in ks if r not in D]``): the tests add up
+    for _ in range(3):
+        inner = None
+        for x, xst in _single_origin_exprs(cfg, universe, cst):
+            its = _membership_atoms(cfg, f, x, xst, None)
+            if its is not None:
+                inner = (x, xst, its, x.generators[0].iter)
+        if inner is None:
+            break
+        tests = list(inner[2]) + list(tests)
+        universe, cst = inner[3], inner[1]
+    # ``r in (A - D)`` / ``r in A.difference(D)``: in A and not in D
+    split = []
+    for c, pos_, st_ in tests:
+        done = False
+        if pos_:
+            xs = _single_origin_exprs(cfg, c, st_)
+            if len(xs) == 1:
+                x, xst = xs[0]
+                if isinstance(x, ast.BinOp) and isinstance(x.op, ast.Sub):
+                    split += [(x.left, True, xst), (x.right, False, xst)]
+                    done = True
+                elif isinstance(x, ast.Call) and isinstance(x.func, ast.Attribute) and x.func.attr == "difference" and len(x.args) == 1 and not x.keywords:
+                    split += [(x.func.value, True, xst), (x.args[0], False, xst)]
+                    done = True
+        if not done:
+            split.append((c, pos_, st_))
+    tests = split
     chk.count("R21d.selection_filters")
     # the filtered universe: the register's keys
     src_ok = False
@@ -975,6 +1057,10 @@ def _check_expander(chk, repo, exp) -> None:
         if sh.method in ("update", "add") or sh.how == "augassign":
             n_add += 1
             arg = sh.node.args[0] if isinstance(sh.node, ast.Call) and sh.node.args else getattr(sh.node, "value", None)
+            if isinstance(arg, ast.Name):
+                srcs = _single_origin_exprs(cfg, arg, st)  # ``codes = reference_map[r]; result.update(codes)``
+                if len(srcs) == 1 and isinstance(srcs[0][0], ast.Subscript):
+                    arg, st = srcs[0]
             good = False
             if isinstance(arg, ast.Subscript) and isinstance(arg.value, ast.Name) and param_of(cfg, arg.value, st) == mp and isinstance(arg.slice, ast.Name):
                 for o in origins(cfg, arg.slice, st):
@@ -1031,8 +1117,11 @@ def _check_noqa_map(chk, repo) -> None:
                     for x, xst in xs:
                         if _is_param_attr(cfg, x, xst, pack, "reference_map"):
                             continue
-                        if _is_self_call(x, "allowed_rule_ref_map") and x.args and _is_param_attr(cfg, x.args[0], xst, pack, "reference_map"):
-                            continue
+                        if _is_self_call(x, "allowed_rule_ref_map"):
+                            a0 = next((k.value for k in x.keywords if k.arg == "reference_map"), x.args[0] if x.args and not isinstance(x.args[0], ast.Starred) else None)
+                            srcs = _single_origin_exprs(cfg, a0, xst) if a0 is not None else []
+                            if srcs and all(_is_param_attr(cfg, y, yst, pack, "reference_map") for y, yst in srcs):
+                                continue
                         good = False
                 chk.require(good, "R21d", c, f"noqa directives are interpreted with a map that is not derived from {pack}.reference_map (the map the selection was made with)", detail=f"{last_attr(c)} gets the pack's reference map")
     chk.count("R21d.noqa_mask_constructions", n)
@@ -1179,6 +1268,206 @@ VARIANTS: List[Variant] = [
         "        self.cap_policy = getattr(self, cap_policy_name)\n",
         "        policy = getattr(self, cap_policy_name)\n        self.cap_policy = policy\n",
         "QUIET", None, "memoised config value computed into a local first",
+    ),
+    # behaviour-preserving refactors: must stay quiet
+    Variant(
+        "quiet-enumerate", LINTER,
+        '                for crawler in progress_bar_crawler:\n',
+        '                for _rule_no, crawler in enumerate(progress_bar_crawler):\n',
+        "QUIET", None, 'the rules loop numbered with enumerate',
+    ),
+    Variant(
+        "quiet-crawl-positional-whole", LINTER,
+        '                    linting_errors, _, fixes, _ = crawler.crawl(\n                        tree,\n                        dialect=config.get("dialect_obj"),\n                        fix=fix,\n                        templated_file=templated_file,\n                        ignore_mask=ignore_mask,\n                        fname=fname,\n                        config=config,\n                    )\n',
+        '                    crawled = crawler.crawl(\n                        tree, config.get("dialect_obj"), fix, templated_file, ignore_mask, fname, config\n                    )\n                    linting_errors, fixes = crawled[0], crawled[2]\n',
+        "QUIET", None, 'crawl called positionally, its result kept whole and indexed',
+    ),
+    Variant(
+        "quiet-errors-extend", LINTER,
+        '                        initial_linting_errors += linting_errors\n',
+        '                        initial_linting_errors.extend(linting_errors)\n',
+        "QUIET", None, '+= spelled extend()',
+    ),
+    Variant(
+        "quiet-errors-plus", LINTER,
+        '                        initial_linting_errors += linting_errors\n',
+        '                        initial_linting_errors = initial_linting_errors + linting_errors\n',
+        "QUIET", None, '+= spelled x = x + y',
+    ),
+    Variant(
+        "quiet-apply-now-local", LINTER,
+        '                    if fix and fixes:\n',
+        '                    apply_now = fix and fixes\n                    if apply_now:\n',
+        "QUIET", None, '`fix and fixes` through a local',
+    ),
+    Variant(
+        "quiet-phase-list-loop", LINTER,
+        '                rules_this_phase = [\n                    rule for rule in rule_pack.rules if rule.lint_phase == phase\n                ]\n',
+        '                rules_this_phase = []\n                for rule in rule_pack.rules:\n                    if rule.lint_phase == phase:\n                        rules_this_phase.append(rule)\n',
+        "QUIET", None, "comprehension over the pack's rules as an append loop",
+    ),
+    Variant(
+        "quiet-from-tree-indexed", LINTER,
+        '            ignore_mask, ivs = IgnoreMask.from_tree(tree, allowed_rules_ref_map)\n            initial_linting_errors += ivs\n',
+        '            built = IgnoreMask.from_tree(tree, allowed_rules_ref_map)\n            ignore_mask = built[0]\n            initial_linting_errors += built[1]\n',
+        "QUIET", None, 'noqa parser result kept whole and indexed',
+    ),
+    Variant(
+        "quiet-templated-filter-keyword", LINTER,
+        '            initial_linting_errors = cls.remove_templated_errors(initial_linting_errors)\n',
+        '            initial_linting_errors = cls.remove_templated_errors(\n                linting_errors=initial_linting_errors\n            )\n',
+        "QUIET", None, "the list's own filter called with a keyword argument",
+    ),
+    Variant(
+        "quiet-allowed-map-keywords", LINTER,
+        '            allowed_rules_ref_map = cls.allowed_rule_ref_map(\n                rule_pack.reference_map, disable_noqa_except\n            )\n            ignore_mask, ivs',
+        '            allowed_rules_ref_map = cls.allowed_rule_ref_map(\n                reference_map=rule_pack.reference_map, disable_noqa_except=disable_noqa_except\n            )\n            ignore_mask, ivs',
+        "QUIET", None, 'keyword arguments for allowed_rule_ref_map',
+    ),
+    Variant(
+        "quiet-pack-map-local", LINTER,
+        '            allowed_rules_ref_map = cls.allowed_rule_ref_map(\n                rule_pack.reference_map, disable_noqa_except\n            )\n            ignore_mask, ivs',
+        '            pack_map = rule_pack.reference_map\n            allowed_rules_ref_map = cls.allowed_rule_ref_map(pack_map, disable_noqa_except)\n            ignore_mask, ivs',
+        "QUIET", None, "the pack's reference map through a local",
+    ),
+    Variant(
+        "quiet-two-comprehensions", BASE,
+        '        keylist = [\n            r for r in keylist if r in expanded_allowlist and r not in expanded_denylist\n        ]\n',
+        '        keylist = [r for r in keylist if r in expanded_allowlist]\n        keylist = [r for r in keylist if r not in expanded_denylist]\n',
+        "QUIET", None, 'selection filter applied in two stages',
+    ),
+    Variant(
+        "quiet-set-difference", BASE,
+        '        keylist = [\n            r for r in keylist if r in expanded_allowlist and r not in expanded_denylist\n        ]\n',
+        '        selected = expanded_allowlist - expanded_denylist\n        keylist = [r for r in keylist if r in selected]\n',
+        "QUIET", None, 'allowed minus denied computed as a set first',
+    ),
+    Variant(
+        "quiet-expand-keywords", BASE,
+        '        expanded_allowlist = self._expand_rule_refs(allowlist, reference_map)\n',
+        '        expanded_allowlist = self._expand_rule_refs(\n            glob_list=allowlist, reference_map=reference_map\n        )\n',
+        "QUIET", None, 'keyword arguments for the expander',
+    ),
+    Variant(
+        "quiet-manifest-local", BASE,
+        '            rule_class = self._register[code].rule_class\n',
+        '            manifest = self._register[code]\n            rule_class = manifest.rule_class\n',
+        "QUIET", None, 'register entry through a local',
+    ),
+    Variant(
+        "quiet-rule-through-local", BASE,
+        '            instantiated_rules.append(rule_class(**kwargs))\n',
+        '            rule = rule_class(**kwargs)\n            instantiated_rules.append(rule)\n',
+        "QUIET", None, 'rule object through a local before the append',
+    ),
+    Variant(
+        "quiet-rules-plus-eq", BASE,
+        '            instantiated_rules.append(rule_class(**kwargs))\n',
+        '            instantiated_rules += [rule_class(**kwargs)]\n',
+        "QUIET", None, 'append spelled += [x]',
+    ),
+    Variant(
+        "quiet-expander-codes-local", BASE,
+        '            if r in reference_map:\n                expanded_rule_set.update(reference_map[r])\n',
+        '            if r in reference_map:\n                direct = reference_map[r]\n                expanded_rule_set.update(direct)\n',
+        "QUIET", None, 'map entry through a local before the update',
+    ),
+    Variant(
+        "quiet-expander-arms-swapped", BASE,
+        '            if r in reference_map:\n                expanded_rule_set.update(reference_map[r])\n            # Otherwise treat as a glob expression on all references.\n            # NOTE: We expand _all_ references (i.e. groups, aliases, names\n            # AND codes) so that we preserve the most backward compatibility\n            # with existing references to legacy codes in config files.\n            else:\n                matched_refs = fnmatch.filter(reference_map.keys(), r)\n                for matched in matched_refs:\n                    expanded_rule_set.update(reference_map[matched])\n',
+        '            if r not in reference_map:\n                for matched in fnmatch.filter(reference_map.keys(), r):\n                    expanded_rule_set |= reference_map[matched]\n                continue\n            expanded_rule_set |= reference_map[r]\n',
+        "QUIET", None, 'direct/glob arms swapped, early continue, |= for update()',
+    ),
+    Variant(
+        "quiet-pack-keywords", BASE,
+        '        return RulePack(instantiated_rules, reference_map)\n',
+        '        pack = RulePack(rules=instantiated_rules, reference_map=reference_map)\n        return pack\n',
+        "QUIET", None, 'RulePack built with keywords, through a local',
+    ),
+    Variant(
+        "quiet-denylist-ifexp", BASE,
+        '        denylist = config.get("rule_denylist") or []\n',
+        '        configured_deny = config.get("rule_denylist")\n        denylist = configured_deny if configured_deny else []\n',
+        "QUIET", None, '`or []` as a conditional expression over a local',
+    ),
+    Variant(
+        "quiet-lint-error-rule-positional", BASE,
+        '        lerr = res.to_linting_error(rule=self)\n',
+        '        lerr = res.to_linting_error(self)\n',
+        "QUIET", None, 'positional rule argument',
+    ),
+    # ---- breaking twins of the quiet spellings above ---------------------------------------------
+    Variant(
+        "enumerate-over-a-freshly-built-pack", LINTER,
+        "                for crawler in progress_bar_crawler:\n",
+        "                for _rule_no, crawler in enumerate(get_ruleset().get_rulepack(config).rules):\n",
+        "R21a", "lint_fix_parsed", "twin of quiet-enumerate",
+    ),
+    Variant(
+        "crawl-result-indexed-at-the-wrong-position", LINTER,
+        '                    linting_errors, _, fixes, _ = crawler.crawl(\n                        tree,\n                        dialect=config.get("dialect_obj"),\n                        fix=fix,\n                        templated_file=templated_file,\n                        ignore_mask=ignore_mask,\n                        fname=fname,\n                        config=config,\n                    )\n',
+        "                    crawled = crawler.crawl(\n                        tree, config.get(\"dialect_obj\"), fix, templated_file, ignore_mask, fname, config\n                    )\n                    linting_errors, fixes = crawled[1], crawled[2]\n",
+        "R21a", "lint_fix_parsed", "twin of quiet-crawl-positional-whole: position 1 of the crawl result is not the violations",
+    ),
+    Variant(
+        "phase-list-loop-over-a-freshly-built-pack", LINTER,
+        "                rules_this_phase = [\n                    rule for rule in rule_pack.rules if rule.lint_phase == phase\n                ]\n",
+        "                rules_this_phase = []\n                for rule in get_ruleset().get_rulepack(config).rules:\n                    if rule.lint_phase == phase:\n                        rules_this_phase.append(rule)\n",
+        "R21a", "lint_fix_parsed", "twin of quiet-phase-list-loop",
+    ),
+    Variant(
+        "templated-filter-keyword-with-extra-violations", LINTER,
+        "            initial_linting_errors = cls.remove_templated_errors(initial_linting_errors)\n",
+        "            initial_linting_errors = cls.remove_templated_errors(\n                linting_errors=initial_linting_errors + cls._structural_checks(tree, config)\n            )\n",
+        "R21a", "lint_fix_parsed", "twin of quiet-templated-filter-keyword",
+    ),
+    Variant(
+        "noqa-map-keyword-rebuilt-without-user-rules", LINTER,
+        "            allowed_rules_ref_map = cls.allowed_rule_ref_map(\n                rule_pack.reference_map, disable_noqa_except\n            )\n            ignore_mask, ivs",
+        "            allowed_rules_ref_map = cls.allowed_rule_ref_map(\n                reference_map=get_ruleset().rule_reference_map(), disable_noqa_except=disable_noqa_except\n            )\n            ignore_mask, ivs",
+        "R21d", "lint_fix_parsed", "twin of quiet-allowed-map-keywords",
+    ),
+    Variant(
+        "two-stage-filter-second-stage-on-the-allow-list", BASE,
+        "        keylist = [\n            r for r in keylist if r in expanded_allowlist and r not in expanded_denylist\n        ]\n",
+        "        keylist = [r for r in keylist if r in expanded_allowlist]\n        keylist = [r for r in keylist if r not in expanded_allowlist or r in expanded_denylist]\n",
+        "R21d", "get_rulepack", "twin of quiet-two-comprehensions",
+    ),
+    Variant(
+        "two-stage-filter-without-the-deny-stage", BASE,
+        "        keylist = [\n            r for r in keylist if r in expanded_allowlist and r not in expanded_denylist\n        ]\n",
+        "        keylist = [r for r in keylist if r in expanded_allowlist]\n        keylist = [r for r in keylist if r in valid_codes]\n",
+        "R21d", "get_rulepack", "twin of quiet-two-comprehensions: the deny stage replaced by a no-op",
+    ),
+    Variant(
+        "set-difference-operands-swapped", BASE,
+        "        keylist = [\n            r for r in keylist if r in expanded_allowlist and r not in expanded_denylist\n        ]\n",
+        "        selected = expanded_denylist - expanded_allowlist\n        keylist = [r for r in keylist if r in selected]\n",
+        "R21d", "_handle_comma_separated_values", "twin of quiet-set-difference: `rules` now fills the deny side",
+    ),
+    Variant(
+        "set-union-instead-of-difference", BASE,
+        "        keylist = [\n            r for r in keylist if r in expanded_allowlist and r not in expanded_denylist\n        ]\n",
+        "        selected = expanded_allowlist | expanded_denylist\n        keylist = [r for r in keylist if r in selected]\n",
+        "R21d", "get_rulepack", "twin of quiet-set-difference",
+    ),
+    Variant(
+        "manifest-local-taken-by-position", BASE,
+        "            rule_class = self._register[code].rule_class\n",
+        "            manifest = list(self._register.values())[len(instantiated_rules)]\n            rule_class = manifest.rule_class\n",
+        "R21d", "get_rulepack", "twin of quiet-manifest-local",
+    ),
+    Variant(
+        "rules-plus-eq-class-of-the-first-code", BASE,
+        "            instantiated_rules.append(rule_class(**kwargs))\n",
+        "            instantiated_rules += [self._register[keylist[0]].rule_class(**kwargs)]\n",
+        "R21d", "get_rulepack", "twin of quiet-rules-plus-eq",
+    ),
+    Variant(
+        "expander-local-falls-back-to-the-raw-reference", BASE,
+        "            if r in reference_map:\n                expanded_rule_set.update(reference_map[r])\n",
+        "            if r in reference_map:\n                direct = reference_map.get(r, {r})\n                expanded_rule_set.update(direct)\n",
+        "R21d", "_expand_rule_refs", "twin of quiet-expander-codes-local",
     ),
     # ---- R21a ---------------------------------------------------------------------------
     Variant(
